@@ -2,8 +2,11 @@
 import itertools, json, random
 import vf
 
-ALPHA = ['(', ')', '&', '|', ':', '*', ' ', 'a', 'b', 'é', '€', '\U0001F600', ' ']
-NAMES = ['A', 'B', 'C', 'D1', 'Low Secret', 'é', 'naïve', 'T*', '日本', 'x y', '😀']
+ALPHA = ['(', ')', '&', '|', ':', '*', ' ', 'a', 'b', 'é', '€', '\U0001F600', ' ', 'ż']     # U+017C: its code point truncated to a byte is '|' (a cast `as u8` would take it for a metacharacter)
+NAMES = ['A', 'B', 'C', 'D1', 'Low Secret', 'é', 'naïve', 'T*', '日本', 'x y', '😀',
+         # characters whose code point ends in the byte of a grammar character (space & ( ) * : |)
+         'Sprzedaż', 'Ħa', 'Ĩ', 'aĩ', 'Īb', 'ĺ', 'aĠb', '在',
+         '*D', '**']      # a name may START with the broadcast character
 WS = ['', ' ', '  ', '\t', ' ', '\n', ' ']
 
 
@@ -170,7 +173,7 @@ def run(ctx):
         # directed search: a disagreement without an oracle hit. Try to find a property failure near the disagreeing inputs.
         pass
     ctx.nontrivial = {s for s in all_inputs if any(ord(c) > 127 for c in s) or '(' in s or '&' in s or '|' in s}
-    ctx.rule = (f'all strings of length <= {maxlen} over a 13-symbol alphabet (metacharacters, spaces, 1-4 byte characters), {len(forms)} random formulas '
+    ctx.rule = (f'all strings of length <= {maxlen} over a {len(ALPHA)}-symbol alphabet (metacharacters, spaces, 1-4 byte characters), {len(forms)} random formulas '
                 f'with known AST printed with random spacing/parentheses, {len(junk)} long random strings, {len(broken)} formulas with one injected defect; '
                 'non-trivial = contains an operator, a parenthesis or a non-ASCII character')
     ctx.samples = [strings[len(strings) // 2], forms[0][1], max((s for _, s in forms), key=len), junk[0], broken[0]]
